@@ -16,6 +16,7 @@ fn main() {
     let args: Vec<String> = std::env::args().collect();
     if args.len() < 2 {
         eprintln!("usage: dlv <Cxx> [--tier quick|thorough] [--seed N] [--out file] [--replay file]");
+        eprintln!("       dlv astcheck [--seed N] [--random N] [--verbose]   (self-test of the shared AST codec)");
         std::process::exit(2);
     }
     if args[1] == "progtest" {
